@@ -228,7 +228,12 @@ func (c *aliasCtx) history(nops int) string {
 				k, v := genKey(r), genPlainValue(r)
 				desc = fmt.Sprintf("#%d.Set(%q, %s)", rw, k, describe(v))
 				op = fmt.Sprintf("HSet %d %s %s", rw, gStr(k), gRv(v, c.sink))
+				argBefore := fmt.Sprintf("%#v", v)
 				c.objs[rw].row.Set(k, v)
+				c.rep.OracleChecks["C15"]++
+				if argAfter := fmt.Sprintf("%#v", v); argAfter != argBefore {
+					c.violate("C15", fmt.Sprintf("alias: %s changed its argument: %s -> %s", desc, argBefore, argAfter), map[string]interface{}{"stream": "alias", "history": strings.Join(append(append([]string{}, hist...), desc), " ; ")})
+				}
 				target = rw
 			case 13, 14:
 				rw := c.pick(false)
@@ -247,7 +252,12 @@ func (c *aliasCtx) history(nops int) string {
 				}
 				desc = fmt.Sprintf("#%d.ImportAtKey(%q, %s)", rw, k, describe(v))
 				op = fmt.Sprintf("HImportAtKey %d %s %s", rw, gStr(k), gRv(v, c.sink))
+				argBefore := fmt.Sprintf("%#v", v)
 				_ = c.objs[rw].row.ImportAtKey(k, v)
+				c.rep.OracleChecks["C15"]++
+				if argAfter := fmt.Sprintf("%#v", v); argAfter != argBefore {
+					c.violate("C15", fmt.Sprintf("alias: %s changed its argument: %s -> %s", desc, argBefore, argAfter), map[string]interface{}{"stream": "alias", "history": strings.Join(append(append([]string{}, hist...), desc), " ; ")})
+				}
 				target = rw
 			default:
 				rw := c.pick(false)
@@ -264,7 +274,12 @@ func (c *aliasCtx) history(nops int) string {
 				}
 				desc = fmt.Sprintf("#%d.ImportAtPath(%q, %s)", rw, p, describe(v))
 				op = fmt.Sprintf("HImportAtPath %d %s %s", rw, gStr(p), gRv(v, c.sink))
+				argBefore := fmt.Sprintf("%#v", v)
 				_ = c.objs[rw].row.ImportAtPath(p, v)
+				c.rep.OracleChecks["C15"]++
+				if argAfter := fmt.Sprintf("%#v", v); argAfter != argBefore {
+					c.violate("C15", fmt.Sprintf("alias: %s changed its argument: %s -> %s", desc, argBefore, argAfter), map[string]interface{}{"stream": "alias", "history": strings.Join(append(append([]string{}, hist...), desc), " ; ")})
+				}
 				target = rw
 			}
 		})
